@@ -125,6 +125,7 @@ type HarnessResult struct {
 	Covers        map[string]bool
 	CoverSeen     map[string]bool
 	Violations    []*Violation
+	Retried       []string // engine errors that did not recur when the path was re-run
 	KnownHit      map[string]int
 	Funcs         map[string]int
 	Natives       map[string]int
